@@ -4,6 +4,7 @@
   lemmas (dimensions, container, sources, output rows, transient wiring).
 -/
 import CC.Proofs.StateBridge
+import CC.Proofs.KCL
 
 set_option linter.unusedSectionVars false
 
@@ -266,24 +267,23 @@ theorem filterMap_idx_length {α : Type} [DecidableEq α] (l src : List α) (h :
     rw [List.filterMap_cons, hk]
     simp [ih fun b hb => h b (List.mem_cons_of_mem _ hb)]
 
-theorem sortL_perm {α : Type} [LabelOrd α] (l : List α) : (sortL l).Perm l := List.mergeSort_perm l _
+theorem filterMap_idx_map_length {α : Type} [DecidableEq α] (l src : List α) (h : ∀ a ∈ l, a ∈ src) (f : Nat → Nat) :
+    (l.filterMap fun a => (idxOf? a src).map f).length = l.length := by
+  induction l with
+  | nil => rfl
+  | cons a l ih =>
+    have ha := idxOf?_isSome_of_mem (h a (List.mem_cons_self))
+    obtain ⟨k, hk⟩ := Option.isSome_iff_exists.mp ha
+    rw [List.filterMap_cons, hk]
+    simp [ih fun b hb => h b (List.mem_cons_of_mem _ hb)]
 
-/-- **C10: number of input columns = number of published sources**, provided no current source
-id is a key of `l_values` (inductors are short circuits at `w = 0`, never current sources) -/
-theorem sources_length (N : Net L K) (lvals : ValDict K) (hcs : ∀ id ∈ N.csIds, lvals.has id = false) :
+/-- **C10: number of input columns = number of published sources** (every network, every
+dictionary) -/
+theorem sources_length (N : Net L K) (lvals : ValDict K) :
     ssNInputs N lvals = (ssSources N lvals).length := by
   unfold ssNInputs ssColsS ssSources
-  rw [filterMap_idx_length _ _ (fun a ha => (List.mem_filter.mp ha).1)]
-  have hp : (N.srcIds.filter fun l => !lvals.has l).Perm
-      ((N.csIds ++ N.vsIds).filter fun l => !lvals.has l) := by
-    apply List.Perm.filter
-    unfold Net.srcIds Net.csIds Net.vsIds
-    exact (sortL_perm _).trans ((sortL_perm _).symm.append (sortL_perm _).symm)
-  rw [hp.length_eq, List.filter_append, List.length_append, List.length_append]
-  congr 1
-  rw [List.filter_eq_self.mpr]
-  intro a ha
-  simp [hcs a ha]
+  rw [List.length_append, List.length_append, filterMap_idx_length _ _ (fun a ha => ha),
+    filterMap_idx_map_length _ _ (fun a ha => (List.mem_filter.mp ha).1)]
 
 /-! ### the container's shape checks -/
 
@@ -312,23 +312,66 @@ def specColsS (N : Net L K) (lvals : ValDict K) : List Nat := (ssSources N lvals
 /-- the columns `QL` should have: the inductors in the order of the dictionary (the order of `Λ`) -/
 def specColsL (N : Net L K) (lvals : ValDict K) : List Nat := lvals.keys.filterMap (blockPos N)
 
-/-- **partial**: the code's column selection is the intended one when the source names do not
-interleave (every current source sorts before every voltage source / inductor), no current
-source is listed as an inductor, and the inductors are listed alphabetically -/
-theorem cols_follow_sources_partial (N : Net L K) (lvals : ValDict K)
-    (hblk : N.srcIds = N.csIds ++ N.vsIds)
-    (hcs : ∀ id ∈ N.csIds, lvals.has id = false)
-    (hkeys : lvals.keys = N.vsIds.filter fun v => lvals.has v) :
+theorem idxOf?_append_left {α : Type} [DecidableEq α] {a : α} {l1 : List α} (l2 : List α) (h : a ∈ l1) :
+    idxOf? a (l1 ++ l2) = idxOf? a l1 := by
+  induction l1 with
+  | nil => cases h
+  | cons b l ih =>
+    by_cases hb : b = a
+    · simp [idxOf?, hb]
+    · have : a ∈ l := by
+        rcases List.mem_cons.mp h with h | h
+        · exact absurd h.symm hb
+        · exact h
+      simp [idxOf?, hb, ih this]
+
+theorem idxOf?_append_right {α : Type} [DecidableEq α] {a : α} {l1 : List α} (l2 : List α) (h : a ∉ l1) :
+    idxOf? a (l1 ++ l2) = (idxOf? a l2).map (l1.length + ·) := by
+  induction l1 with
+  | nil => cases h' : idxOf? a l2 <;> simp [h']
+  | cons b l ih =>
+    have hb : ¬ b = a := fun e => h (e ▸ List.mem_cons_self)
+    have hl : a ∉ l := fun e => h (List.mem_cons_of_mem _ e)
+    simp only [List.cons_append, idxOf?, hb, if_false, ih hl, Option.map_map, List.length_cons]
+    congr 1
+    funext k
+    simp only [Function.comp]; omega
+
+/-- an id cannot be both a current source and an ideal voltage source -/
+theorem csIds_not_vsIds (N : Net L K) (h : N.ids.Nodup) {id : String} (hc : id ∈ N.csIds) : id ∉ N.vsIds := by
+  intro hv
+  rw [Net.csIds, mem_sortL, List.mem_map] at hc
+  rw [Net.vsIds, mem_sortL, List.mem_map] at hv
+  obtain ⟨b, hb, rfl⟩ := hc
+  obtain ⟨b', hb', he⟩ := hv
+  have hbm := (List.mem_filter.mp hb).1
+  have hbm' := (List.mem_filter.mp hb').1
+  have : b' = b := List.inj_on_of_nodup_map h hbm' hbm he
+  subst this
+  have h1 := (List.mem_filter.mp hb).2
+  have h2 := Ival_of_VS (List.mem_filter.mp hb').2
+  simp [Elem.isCS, h2] at h1
+
+/-- **C10, input and inductor columns** (full strength since fix 3361ab5): column `k` of `QS`
+is the block position of `sources[k]`, column `k` of `QL` the block position of the `k`-th key of
+`l_values` — for every network with distinct ids and every dictionary whose keys are ideal voltage
+sources (short circuits) of the network; no hypothesis on names or listing order -/
+theorem cols_follow_sources (N : Net L K) (lvals : ValDict K) (hids : N.ids.Nodup)
+    (hkeys : ∀ id ∈ lvals.keys, id ∈ N.vsIds) :
     ssColsS N lvals = specColsS N lvals ∧ ssColsL N lvals = specColsL N lvals := by
-  have h1 : (N.csIds.filter fun l => !lvals.has l) = N.csIds :=
-    List.filter_eq_self.mpr fun a ha => by simp [hcs a ha]
-  have h2 : (N.csIds.filter fun l => lvals.has l) = [] :=
-    List.filter_eq_nil_iff.mpr fun a ha => by simp [hcs a ha]
   constructor
   · unfold ssColsS specColsS ssSources blockPos
-    rw [hblk, List.filter_append, h1]
+    rw [List.filterMap_append]
+    congr 1
+    · exact List.filterMap_congr fun a ha => (idxOf?_append_left _ ha).symm
+    · refine List.filterMap_congr fun a ha => ?_
+      have hv : a ∈ N.vsIds := (List.mem_filter.mp ha).1
+      have : a ∉ N.csIds := fun hc => csIds_not_vsIds N hids hc hv
+      rw [idxOf?_append_right _ this]; rfl
   · unfold ssColsL specColsL blockPos
-    rw [hblk, List.filter_append, h2, List.nil_append, hkeys]
+    refine List.filterMap_congr fun a ha => ?_
+    have : a ∉ N.csIds := fun hc => csIds_not_vsIds N hids hc (hkeys a ha)
+    rw [idxOf?_append_right _ this]; rfl
 
 /-! ### TransientSolution wiring -/
 
